@@ -2,6 +2,7 @@ package main
 
 import (
 	"fmt"
+	"go/types"
 	"regexp"
 	"sort"
 	"strings"
@@ -471,7 +472,17 @@ func c02R4(c *Ctx) {
 			}
 			return false
 		}
+		gateHelper := patternGateHelper(c, er)
 		isTruthyOfPattern := func(v ssa.Value) bool {
+			if ex, ok := v.(*ssa.Extract); ok && ex.Index == 0 && gateHelper != nil {
+				if hc, ok := ex.Tuple.(*ssa.Call); ok && hc.Call.StaticCallee() == gateHelper {
+					for _, a := range hc.Call.Args {
+						if p.Render(a) == "rules[i@rules]" {
+							return true
+						}
+					}
+				}
+			}
 			return p.Render(v) == "(*lang.Value).isTruthy(&(*lang.Evaluator).evalExpr(e, rules[i@rules].Pattern)#0.Value)"
 		}
 		var gateOK func(fs factSet) bool
@@ -771,4 +782,52 @@ func returnedAtOnce(cs ssa.CallInstruction) bool {
 		}
 	}
 	return true
+}
+
+// patternGateHelper: evalRules may ask a helper of its own whether the rule matches. The helper is
+// accepted (and returned) when it is exactly the gate: (true, nil) where the rule has no pattern,
+// (isTruthy(value of the pattern), nil) after a successful evaluation of the pattern, and a non-nil
+// error otherwise; it must have no effects of its own.
+func patternGateHelper(c *Ctx, er *ssa.Function) *ssa.Function {
+	p := c.P
+	for _, call := range callsIn(er) {
+		h := call.Common().StaticCallee()
+		if h == nil || h == er || !p.inClusterOf(er, h) || h.Signature.Results().Len() != 2 || !isBoolType(h.Signature.Results().At(0).Type()) || !isErrorType(h.Signature.Results().At(1).Type()) {
+			continue
+		}
+		var rule *ssa.Parameter
+		for _, prm := range h.Params {
+			if pt, ok := prm.Type().(*types.Pointer); ok && isLangNamed(pt.Elem(), "Rule") {
+				rule = prm
+			}
+		}
+		if rule == nil {
+			continue
+		}
+		R := p.Render(rule)
+		ev := "(*lang.Evaluator).evalExpr(e, " + R + ".Pattern)"
+		okAll, nTrue, nTruthy := true, 0, 0
+		ek := EKOf(p)
+		for _, r := range returnsOf(h) {
+			res := effectiveResults(r)
+			mayNil := ek.KindsAt(res[1], FactsOf(h).At(r.Block())).Has(KNil)
+			if !mayNil {
+				continue // an error return: the verdict is not used
+			}
+			g := guardsAt(p, h, r.Block())
+			switch v := p.Render(res[0]); {
+			case v == "true" && g[R+".Pattern == nil"]:
+				nTrue++
+			case v == "(*lang.Value).isTruthy(&"+ev+"#0.Value)" && g[ev+"#1 == nil"]:
+				nTruthy++
+			default:
+				okAll = false
+			}
+		}
+		c.check(okAll && nTrue == 1 && nTruthy == 1 && len(p.effects(h)) == 0, "R4", "pattern-gate-helper "+shortName(h), p.Pos(h.Pos()), "true without a pattern, else the truthiness of the evaluated pattern", "the helper "+shortName(h)+" that decides whether a rule matches is not `true when the rule has no pattern, isTruthy(value of the pattern) otherwise` without effects")
+		if okAll && nTrue == 1 && nTruthy == 1 {
+			return h
+		}
+	}
+	return nil
 }
